@@ -17,10 +17,12 @@ mod gen_prog;
 mod l2;
 mod layout_props;
 mod layoutdump;
+mod meta_props;
 mod probe;
 mod refprog;
 mod refmodel;
 mod render;
+mod resolve_props;
 mod rng;
 mod static_props;
 mod verdict;
@@ -89,9 +91,11 @@ fn main() {
             "C07" => exec_props::replay(&mut ctx, "C07", &case),
             "C15" => exec_props::replay(&mut ctx, "C15", &case),
             "C08" => c08::replay(&mut ctx, &case),
+            "C10" | "C11" => resolve_props::replay(&mut ctx, prop, &case),
             "C13" => c13::replay(&mut ctx, &case),
             "C14" | "C16" | "C17" => static_props::replay(&mut ctx, prop, &case),
             "C18" => c18::replay(&mut ctx, &case),
+            "C19" | "C20" => meta_props::replay(&mut ctx, prop, &case),
             _ => {
                 eprintln!("no replay for {prop}");
                 std::process::exit(2);
@@ -110,11 +114,15 @@ fn main() {
         "C07" => exec_props::run(&mut ctx, "C07"),
         "C15" => exec_props::run(&mut ctx, "C15"),
         "C08" => c08::run(&mut ctx),
+        "C10" => resolve_props::run_c10(&mut ctx),
+        "C11" => resolve_props::run_c11(&mut ctx),
         "C13" => c13::run(&mut ctx),
         "C14" => static_props::run_c14(&mut ctx),
         "C16" => static_props::run_c16(&mut ctx),
         "C17" => static_props::run_c17(&mut ctx),
         "C18" => c18::run(&mut ctx),
+        "C19" => meta_props::run_c19(&mut ctx),
+        "C20" => meta_props::run_c20(&mut ctx),
         _ => {
             eprintln!("unknown property {prop}");
             std::process::exit(2);
